@@ -395,7 +395,35 @@ def rule_internal_key_unaltered(ctx: Ctx, rep: Report) -> None:
     rep.floor(rule, 1)
 
 
+def rule_hex_pushes_stay_data(ctx: Ctx, rep: Report) -> None:
+    """C12.hex_pushes_stay_data: in a leaf script written as a list, a string is an
+    op code *name* (it starts with OP_) or the hex of a push -- `taproot.parse`
+    spells a two-byte push of 0x10 as "10". The serializer looks a string up in
+    the op code table as it is, and under no other spelling of it: with the
+    prefix made optional, "10".."16" and "1ADD" are op codes, and the leaf the
+    output key commits to is not the leaf the caller wrote."""
+    rule = "C12.hex_pushes_stay_data"
+    fi = ctx.func("btclib.script.op_codes_tapscript._serialize_str_command")
+    p0 = fi.params()[0]
+    n = 0
+    for x in own_nodes(fi.node):
+        key = None
+        if isinstance(x, ast.Subscript) and str(norm(x.value)) == "OP_CODES":
+            key = x.slice
+        elif isinstance(x, ast.Compare) and isinstance(x.ops[0], (ast.In, ast.NotIn)) and str(norm(x.comparators[0])) == "OP_CODES":
+            key = x.left
+        if key is None:
+            continue
+        n += 1
+        ok = isinstance(key, ast.Name) and key.id == p0
+        rep.ob(rule, f"_serialize_str_command:{norm(key)[:30]}", ok, fi.where(x), "looked up as written" if ok else
+               f"`{norm(x)[:60]}` looks the command up under another spelling than the one written: a hex push that spells an op code name without its prefix is written as that op code")
+    rep.floor(rule, 2)
+
+
 RULES = [
+    ("C12.hex_pushes_stay_data", rule_hex_pushes_stay_data),
+
     ("C12.leaf_version_masked", rule_leaf_version_masked),
     ("C12.internal_key_unaltered", rule_internal_key_unaltered),
 
